@@ -46,6 +46,13 @@ pub struct AnyAttributeState {
     el: crate::renderer::types::Element,
 }
 
+impl AnyAttributeState {
+    /// The element this attribute was built on.
+    pub(crate) fn element(&self) -> &crate::renderer::types::Element {
+        &self.el
+    }
+}
+
 /// Converts an [`Attribute`] into [`AnyAttribute`].
 pub trait IntoAnyAttribute {
     /// Wraps the given attribute.
